@@ -23,14 +23,16 @@ SRC_SPEC = ("crc.go:*;encoding.go:*;modbus.go:mapExceptionCodeToError,mapErrorTo
             "rtu_transport.go:rtuTransport.Close,rtuTransport.ExecuteRequest,rtuTransport.ReadRequest,"
             "rtuTransport.WriteResponse,rtuTransport.readRTUFrame,discard;"
             "udp.go:udpSockWrapper.Read,udpSockWrapper.Write,udpSockWrapper.Close,udpSockWrapper.SetDeadline;"
-            "tls_utils.go:tlsSockWrapper.Read,tlsSockWrapper.Write,tlsSockWrapper.Close,tlsSockWrapper.SetDeadline")
+            "tls_utils.go:tlsSockWrapper.Read,tlsSockWrapper.Write,tlsSockWrapper.Close,tlsSockWrapper.SetDeadline;"
+            "serial.go:serialPortWrapper.Read,serialPortWrapper.Write,serialPortWrapper.SetDeadline,serialPortWrapper.Close")
 # the transport layer: sockets, serial links and the clock are external
 SRC_TRANSPORT = ("tcpTransport.readMBAPFrame,tcpTransport.readResponse,tcpTransport.ReadRequest,"
                  "tcpTransport.WriteResponse,tcpTransport.ExecuteRequest,tcpTransport.Close,"
                  "rtuTransport.Close,rtuTransport.ExecuteRequest,rtuTransport.ReadRequest,"
                  "rtuTransport.WriteResponse,rtuTransport.readRTUFrame,discard,"
                  "udpSockWrapper.Read,udpSockWrapper.Write,udpSockWrapper.Close,udpSockWrapper.SetDeadline,"
-                 "tlsSockWrapper.Read,tlsSockWrapper.Write,tlsSockWrapper.Close,tlsSockWrapper.SetDeadline")
+                 "tlsSockWrapper.Read,tlsSockWrapper.Write,tlsSockWrapper.Close,tlsSockWrapper.SetDeadline,"
+                 "serialPortWrapper.Read,serialPortWrapper.Write,serialPortWrapper.SetDeadline,serialPortWrapper.Close")
 # functions whose external calls (transport, user handler, socket, clock) thread a state-of-the-world value
 SRC_WORLD = "ModbusServer.handleTransport," + SRC_TRANSPORT
 # functions translated in signed mode (int / time.Duration as two's-complement patterns, instants as numbers)
